@@ -167,10 +167,10 @@ class TreeCheck:
                     if f is None and first:
                         case_replay = common.save_replay(self.prop, name, copy_dir=hist.dir)
                         first = False
-                    replay = case_replay if f is None else None
                     elif f is not None and f["id"] not in known_replays:
                         known_replays.add(f["id"])
                         common.save_replay(self.prop, "known-" + f["id"], copy_dir=hist.dir)
+                    replay = case_replay if f is None else None
                     V.violation(sig, text, replay)
             else:
                 V.ok()
